@@ -10,7 +10,7 @@
  * handles); the python check compares that part between interleaved and sequential runs.
  *
  * Lines:  new | fin | prog.. fun.. a.. begin.. end.. endprog (echoed as "-": program for the Lean side)
- *         parse <awk-file> | parsebad <missing-file> | clear | open c | close c | call c fname args.. | loop c | exec c
+ *         parse <awk-file>.. (one or more source pieces) | parsebad <missing-file> | clear | open c | close c | call c fname args.. | loop c | exec c
  *         setgbl c n arg | getgbl c n | halt c | mkstr c h text | mkmap c h | drop c h | show c h
  *         args:  n (nil)   s:text (temporary string, dropped after the call)   h:K (handle K)
  */
@@ -90,7 +90,7 @@ static const char* errname (int e)
 		case HAWK_ENOTIDXACC: return "ENOTIDXACC"; case HAWK_ENONSCARET: return "ENONSCARET";
 		case HAWK_ENONSCATOVAR: return "ENONSCATOVAR"; case HAWK_ENONSCATOSCALAR: return "ENONSCATOSCALAR";
 		case HAWK_ENONSCATONONSCA: return "ENONSCATONONSCA"; case HAWK_ESCALARTONONSCA: return "ESCALARTONONSCA";
-		case HAWK_ENONSCATOIDX: return "ENONSCATOIDX"; case HAWK_EIONMNF: return "EIONMNF"; case HAWK_EINVAL: return "EINVAL"; case HAWK_ENOMEM: return "ENOMEM";
+		case HAWK_ENONSCATOIDX: return "ENONSCATOIDX"; case HAWK_EIONMNF: return "EIONMNF"; case HAWK_ENOTREF: return "ENOTREF"; case HAWK_ENONSCATOPOS: return "ENONSCATOPOS"; case HAWK_EINVAL: return "EINVAL"; case HAWK_ENOMEM: return "ENOMEM";
 		default: snprintf(buf, sizeof(buf), "E%d", e); return buf;
 	}
 }
@@ -283,12 +283,14 @@ int main (int argc, char** argv)
 		if (!hawk) { printf("no-interp\n"); continue; }
 		if ((!strcmp(tok[0], "parse") || !strcmp(tok[0], "parsebad")) && nt >= 2)
 		{
-			hawk_parsestd_t in[2]; int n, c2, open_ctx = 0;
+			/* the source may come in several pieces (like several -f files): one in[] entry per path */
+			hawk_parsestd_t in[17]; int n, c2, open_ctx = 0, np = nt - 1, k;
 			for (c2 = 0; c2 < MAXC; c2++) if (cx[c2].rtx) open_ctx = 1;
 			if (open_ctx) { printf("parse refused\n"); continue; }
+			if (np > 16) np = 16;
 			memset(in, 0, sizeof(in));
-			in[0].type = HAWK_PARSESTD_FILEB; in[0].u.fileb.path = tok[1];
-			in[1].type = HAWK_PARSESTD_NULL;
+			for (k = 0; k < np; k++) { in[k].type = HAWK_PARSESTD_FILEB; in[k].u.fileb.path = tok[1 + k]; }
+			in[np].type = HAWK_PARSESTD_NULL;
 			cur_owner = -1;
 			n = hawk_parsestd(hawk, in, NULL);
 			parsed = (n >= 0);
